@@ -190,3 +190,133 @@ UNITS += [
          assumptions=["find_safety() by its contract (c11_find_safety)"],
          note="OrangeTrackView::find_safety(max): same guarantee as find_safety() (never larger than any level's safety), whatever use is made of the search radius"),
 ]
+
+
+# ---------------------------------------------------------------------------
+# CalcSafetyDistance (per-surface safety) and RectArrayTracker::safety
+# ---------------------------------------------------------------------------
+SFN = "src/orange/univ/detail/SurfaceFunctors.hh"
+CSD_MODEL = """
+#include <math.h>
+typedef struct { real_type v[3]; } Real3;
+typedef struct { real_type v[2]; } Intersections;          /* up to two intersections (planes: one; modelled with two slots, the second +inf) */
+enum { SENSE_inside = -1, SENSE_on = 0, SENSE_outside = 1 };      /* SignedSense */
+enum { SS_off = 0, SS_on = 1 };
+typedef struct { Real3 pos; } CalcSafetyDistance;
+bool g_simple;                 /* S::simple_safety() of the visited surface type (either value; the per-type table is checked in c11_flag_table) */
+Real3 g_normal; int g_sense; Intersections g_isect;     /* ghost: what the surface returns (any normal incl. NaN; any sense; distances > 0 or +inf by the QuadraticSolver contracts, C12) */
+static Real3 SURF_calc_normal(Real3 const* pos) { return g_normal; }
+static int SURF_calc_sense(Real3 const* pos) { return g_sense; }
+static Intersections SURF_calc_intersections(Real3 const* pos, Real3 dir, int on) { return g_isect; }
+static real_type const* MIN_element2(real_type const* b, real_type const* e) { return (b[1] < b[0]) ? b + 1 : b; }   /* celeritas::min_element over two values (contract: c18_min_element_d) */
+"""
+CSD_RULES = [
+    Rule(r"!S::simple_safety\(\)", "!g_simple", "*", note="surface type's flag -> ghost (table checked in c11_flag_table)"),
+    Rule(r"if constexpr", "if", "*", note="if constexpr -> if"),
+    Rule(r"numeric_limits<real_type>::infinity\(\)", "__builtin_inf()", "*", note="numeric_limits::infinity"),
+    Rule(r"Real3 dir = surf\.calc_normal\(this->pos\);", "Real3 dir = SURF_calc_normal(&self->pos);", "*", note="surface call -> ghost"),
+    Rule(r"std::isnan\(dir\[0\]\)", "__CPROVER_isnand(dir.v[0])", "*", note="std::isnan"),
+    Rule(r"CELER_ASSERT\(is_soft_unit_vector\(dir\)\);", "/* NOT PROMOTED: CELER_ASSERT(is_soft_unit_vector(dir)) -- normalisation accuracy */", "*", note="in-body assert not promoted (numeric)"),
+    Rule(r"auto sense = surf\.calc_sense\(this->pos\);", "int sense = SURF_calc_sense(&self->pos);", "*", note="surface call -> ghost"),
+    Rule(r"SignedSense::(\w+)", r"SENSE_\1", "*", note="enum class value (bound)"),
+    Rule(r"for \(real_type& d : dir\)\s*\{\s*d \*= -1;\s*\}", "for (int k_ = 0; k_ < 3; ++k_) { dir.v[k_] *= -1; }", "*", note="range-for over the array by reference"),
+    Rule(r"auto intersect\s*=\s*surf\.calc_intersections\(this->pos, dir, SurfaceState::off\);", "Intersections intersect = SURF_calc_intersections(&self->pos, dir, SS_off);", "*", note="surface call -> ghost"),
+    Rule(r"celeritas::min_element\(intersect\.begin\(\), intersect\.end\(\)\)", "MIN_element2(intersect.v, intersect.v + 2)", "*", note="min_element over the intersections"),
+]
+
+
+def build_calc_safety_distance(ctx):
+    pc = ctx.func(SFN, r"CELER_FUNCTION real_type operator\(\)\(S const& surf\)\s*\{\s*if (?:constexpr )?\(!S::simple_safety\(\)\)", CSD_RULES, name="CalcSafetyDistance::operator()<S>")
+    return (HDR + CSD_MODEL + """
+real_type CSD_call(CalcSafetyDistance const* self)
+__CPROVER_requires(self != 0 && g_isect.v[0] > 0 && g_isect.v[1] > 0 && (g_sense == SENSE_inside || g_sense == SENSE_on || g_sense == SENSE_outside))
+__CPROVER_assigns()
+/* conservative: a surface type whose along-normal distance is NOT the distance to the surface contributes 0; every contribution is non-negative */
+__CPROVER_ensures(!g_simple ==> __CPROVER_return_value == 0)
+__CPROVER_ensures(__CPROVER_return_value >= 0)
+/* a point on the surface has zero safety */
+__CPROVER_ensures((g_simple && !__CPROVER_isnand(g_normal.v[0]) && g_sense == SENSE_on) ==> __CPROVER_return_value == 0)
+{""" + pc.body + """}
+void h_csd(void)
+{
+    CalcSafetyDistance c; unsigned r; g_simple = (r != 0);
+    CSD_call(&c);
+    VERIF_CANARY();
+}
+""")
+
+
+RAT = "src/orange/univ/RectArrayTracker.hh"
+RAT_MODEL = """
+#include <math.h>
+typedef struct { real_type v[3]; } Real3;
+typedef struct { size_type v[3]; } Coords;
+/* record_.dims, num_volumes(), and -- of the three plane grids -- the two planes per axis that bound the cell of the volume (lo = grid[ax][coords[ax]], hi = grid[ax][coords[ax] + 1]);
+   reads of any other grid point return an arbitrary value */
+typedef struct { size_type dims[3]; real_type lo[3], hi[3]; size_type nvol; } RectArrayTracker;
+Coords g_coords;      /* ghost: VolumeInverseIndexer(dims)(volid): any coordinates with coords[ax] < dims[ax] (index arithmetic: not this unit) */
+unsigned g_wax; bool g_wi;   /* ghost witness: axis and lower/upper plane of the cell */
+real_type nondet_real(void);
+static real_type GRID_at(RectArrayTracker const* self, int ax, size_type i)
+{
+    __CPROVER_assert(i <= self->dims[ax], "celer_expect: NonuniformGrid::operator[] i < size (size = dims + 1)");
+    return i == g_coords.v[ax] ? self->lo[ax] : (i == g_coords.v[ax] + 1 ? self->hi[ax] : nondet_real());
+}
+static real_type celer_min(real_type a, real_type b) { return fmin(a, b); }
+"""
+RAT_RULES = [
+    Rule(r"CELER_EXPECT\(volid && volid\.get\(\) < this->num_volumes\(\)\);", "CELER_EXPECT(volid != (size_type)-1 && volid < self->nvol);", "*", note="OpaqueId validity"),
+    Rule(r"VolumeInverseIndexer to_coords\(record_\.dims\);", "", "*", note="indexer object"),
+    Rule(r"auto coords = to_coords\(volid\.unchecked_get\(\)\);", "Coords coords = g_coords;   /* VolumeInverseIndexer(record_.dims)(volid) */", "*", note="inverse indexer -> ghost coordinates"),
+    Rule(r"numeric_limits<real_type>::infinity\(\)", "__builtin_inf()", "*", note="numeric_limits::infinity"),
+    Rule(r"for \(auto ax : range\(Axis::size_\)\)", "for (int ax = 0; ax < 3; ++ax)", "*", note="range over the three axes (bound)"),
+    Rule(r"auto grid = this->make_grid\(ax\);", "", "*", note="grid view of axis ax"),
+    Rule(r"for \(auto i : range\(2\)\)", "for (int i = 0; i < 2; ++i)", "*", note="range(2)"),
+    Rule(r"auto target_coord = coords\[to_int\(ax\)\] \+ i;", "size_type target_coord = coords.v[ax] + i;", "*", note="auto"),
+    Rule(r"coords\[to_int\(ax\)\]", "coords.v[ax]", "*", note="Array::operator[]"),
+    Rule(r"real_type target = grid\[target_coord\];", "real_type target = GRID_at(self, ax, target_coord);", "*", note="grid point (bounds asserted)"),
+    Rule(r"\bgrid\[([^\[\]]*)\]", r"GRID_at(self, ax, \1)", "*", note="grid point (bounds asserted)"),
+    Rule(r"pos\[to_int\(ax\)\]", "pos->v[ax]", "*", note="Array::operator[]"),
+    Rule(r"std::fabs\(", "fabs(", "*", note="std::fabs"),
+    Rule(r"(?<![\w_])min\(", "celer_min(", "*", note="celeritas::min"),
+]
+
+
+def build_rect_safety(ctx):
+    pc = ctx.func(RAT, r"^CELER_FUNCTION real_type RectArrayTracker::safety\(Real3 const& pos,", RAT_RULES, name="RectArrayTracker::safety")
+    return (HDR + RAT_MODEL + """
+#define GOK(ax) (self->dims[ax] >= 1 && g_coords.v[ax] < self->dims[ax])
+#define FINP(x) (!__CPROVER_isnand(x) && !__CPROVER_isinfd(x))
+#define ABSD(x) ((x) < 0 ? -(x) : (x))
+#define WAX (g_wax < 3 ? g_wax : 0)
+real_type RAT_safety(RectArrayTracker const* self, Real3 const* pos, size_type volid)
+__CPROVER_requires(self != 0 && pos != 0 && volid != (size_type)-1 && volid < self->nvol && GOK(0) && GOK(1) && GOK(2) && g_wax < 3 && FINP(pos->v[0]) && FINP(pos->v[1]) && FINP(pos->v[2]))
+/* the planes of the cell: not NaN; at least one plane of the cell is finite and of ordinary magnitude (the outermost planes may be +-inf) */
+__CPROVER_requires(!__CPROVER_isnand(self->lo[0]) && !__CPROVER_isnand(self->hi[0]) && !__CPROVER_isnand(self->lo[1]) && !__CPROVER_isnand(self->hi[1]) && !__CPROVER_isnand(self->lo[2]) && !__CPROVER_isnand(self->hi[2])
+                   && ABSD(self->lo[0]) <= 1e300 && ABSD(pos->v[0]) <= 1e300)
+__CPROVER_assigns()
+/* the reported safety is never negative -- also for a point that floating-point roundoff left on the far side of a cell wall -- and never exceeds the distance to any of the six planes of the cell */
+__CPROVER_ensures(__CPROVER_return_value >= 0)
+__CPROVER_ensures(__CPROVER_return_value <= __CPROVER_fabs(pos->v[0] - self->lo[0]) && __CPROVER_return_value <= __CPROVER_fabs(pos->v[0] - self->hi[0]))
+__CPROVER_ensures(__CPROVER_return_value <= __CPROVER_fabs(pos->v[1] - self->lo[1]) && __CPROVER_return_value <= __CPROVER_fabs(pos->v[1] - self->hi[1]))
+__CPROVER_ensures(__CPROVER_return_value <= __CPROVER_fabs(pos->v[2] - self->lo[2]) && __CPROVER_return_value <= __CPROVER_fabs(pos->v[2] - self->hi[2]))
+{""" + pc.body + """}
+void h_rat(void)
+{
+    RectArrayTracker t; Real3 p; size_type v;
+    RAT_safety(&t, &p, v);
+    VERIF_CANARY();
+}
+""")
+
+
+UNITS += [
+    Unit("c11_calc_safety_distance", build_calc_safety_distance, "h_csd", enforce="CSD_call", timeout=300, unwind=5, backend=["sat", "cvc5"],
+         must_have=[r"CSD_call.postcondition"], checks=["--bounds-check", "--pointer-check"],
+         assumptions=["intersection distances > 0 or +inf (QuadraticSolver units of C12; plane intersections not under contract)", "NOT PROMOTED: is_soft_unit_vector(dir)", "that the along-normal intersection IS the distance to a simple surface is geometric (not decided)"],
+         note="CalcSafetyDistance::operator()<S>: a non-simple surface type contributes exactly 0; every contribution is >= 0; zero on the surface"),
+    Unit("c11_rect_array_safety", build_rect_safety, "h_rat", enforce="RAT_safety", timeout=600, unwind=5, object_bits=10, backend=["sat", "kissat", "cvc5"],
+         must_have=[r"RAT_safety.postcondition", r"celer_ensure", r"celer_expect"], checks=["--bounds-check", "--pointer-check"],
+         assumptions=["VolumeInverseIndexer returns coordinates inside the array (index arithmetic not in this unit)", "only the two planes per axis that bound the cell are modelled"],
+         note="RectArrayTracker::safety: >= 0 for EVERY position (also one roundoff left beyond a cell wall) and <= the distance to each of the cell's six planes; all grid reads in range; its CELER_ENSURE holds"),
+]
